@@ -56,7 +56,9 @@ func (c10) Gen(rng *rand.Rand, tier string, k int) *Case {
 		switch x := rng.Intn(10); {
 		case x < 4:
 			cnt := rng.Intn(5)
-			if rng.Intn(50) == 0 {
+			if rng.Intn(300) == 0 {
+				cnt = 1001 + rng.Intn(1600) // years of history in one Append
+			} else if rng.Intn(50) == 0 {
 				cnt = 257 + rng.Intn(400) // a long history in one Append (more than any batch size)
 			} else if rng.Intn(20) == 0 {
 				cnt = 6 + rng.Intn(200) // every length in between, so that totals of any size are read back
